@@ -22,7 +22,7 @@ RULE = (
 )
 ASSUMPTIONS = ["The harness controls completion order via delays inside the task function, not the OS scheduler.",
                "Process-pool workers are spawned and re-import pennylane (seconds per execution), so process backends get one execution per case and a small share of cases; the delay table travels through an environment variable."]
-BUDGET = {"quick": {"examples": 18, "min_nontrivial": 2}, "thorough": {"examples": 500, "shards": 1}}
+BUDGET = {"quick": {"examples": 18, "min_nontrivial": 2}, "thorough": {"examples": 80, "shards": 4}}
 SHRINK_LISTS = ("circuits",)
 
 ENV = "PV_C31_DELAYS"   # json {marker angle: seconds}; environment is inherited by forked AND spawned workers
